@@ -10,7 +10,7 @@ NOTE = ("Trusted: Coq 8.16.1 kernel, gen/translate.py, extraction (ExtrOcamlBasi
 CLAIMED = {
     "C01": ("Reference loop semantics of all operation families as executable Gallina index plans (Spec/LoopSem.v) with theorems on the "
             "position arithmetic; Model/Lower.v models the lowering of rearrangements with nested flattened axes (reshape - transpose - "
-            "reshape as a term of Model/Opt.v) and the alignment of element-wise inputs, and Props/C01.v proves that they put every element "
+            "reshape as a term of Model/Opt.v) the alignment of element-wise inputs and the reshape / axis= / rearrangement around a reduction, and Props/C01.v proves that they put every element "
             "where the loop notation says, for all expressions and sizes; the graph einx traces for such calls is compared with the model's "
             "term by the extracted, proved-sound equivalence checker; every generated well-formed call of every family is evaluated by the extracted spec and compared with "
             "einx on numpy, numpy.numpylike, numpy.einsum (OperationNotSupportedError is the only other accepted outcome)",
